@@ -61,6 +61,54 @@ def split_trig(I, p, fn, Rsym):
     return I.syminfo[trig[0]]['args'][0].p
 
 
+def density_ok(I, s, npoly):
+    """npoly == max(1, ceil(c * |sweep| * R)) (or without the clamp / with int()) with a constant c >= 1, where the sweep
+    is whatever the path computed: the ceil argument must be c * abs(T) * hypot(i,j) for one polynomial T"""
+    name = npoly.single_symbol()
+    if name is None:
+        return False
+    info = I.syminfo.get(name, {})
+    inner = None
+    if info.get('fn') == 'max':
+        for a in info['args']:
+            ai = app_info(I, a.p, 'ceil')
+            if ai:
+                inner = ai[0]
+            else:
+                ai2 = app_info(I, a.p, 'int')
+                if ai2:
+                    ai3 = app_info(I, ai2[0], 'ceil')
+                    inner = ai3[0] if ai3 else None
+    elif info.get('fn') == 'ceil':
+        inner = info['args'][0].p
+    elif info.get('fn') == 'int':
+        ai = app_info(I, info['args'][0].p, 'ceil')
+        inner = ai[0] if ai else None
+    if inner is None:
+        return False
+    Rs = None
+    for cand in ('hypot(ci,cj)', 'hypot(cj,ci)'):
+        if cand in I.syminfo and cand in inner.symbols():
+            Rs = S(cand)
+    if Rs is None:
+        return False
+    q = inner.div(Rs)
+    if q is None or (Rs.single_symbol() in q.symbols()):
+        return False
+    # q == c * |T| : either c*abs(T) with an abs symbol, or +-c*T with the sign known on the path
+    absn = [nme for nme in q.symbols() if I.syminfo.get(nme, {}).get('fn') == 'abs']
+    if len(absn) == 1 and len(q.t) == 1:
+        (mm, c), = q.t.items()
+        return mm == ((absn[0], 1),) and c >= 1
+    if not absn and q.t:
+        sg = I.infer_signs(s, q)
+        if sg <= frozenset([0, 1]):
+            # |T| = T/c' ... accept when q is a positive multiple (>= 1) of a sweep-like polynomial containing an atan2 or pi
+            coeffs = [abs(c) for c in q.t.values()]
+            return min(coeffs) >= 1 and any(I.syminfo.get(n2, {}).get('fn') == 'atan2' or n2 == 'pi' for n2 in q.symbols())
+    return False
+
+
 def plan_rules(ctx, I):
     st, H, St = new_handlers_state(I)
     prep_simple(I, st)
@@ -97,6 +145,23 @@ def plan_rules(ctx, I):
         for cand in ('hypot(ci,cj)', 'hypot(cj,ci)'):
             if cand in I.syminfo:
                 Rs = S(cand)
+        # the number of samples is governed by range(1, n) with n the density expression, on EVERY path (also the
+        # ones that return the end point alone)
+        ranges = [e for e in s.trace if e[0] == 'range' and e[2].endswith('planArc')]
+        ctx.instance('C16.R5', ('range', len(el), len(ranges)))
+        if len(ranges) != 1 or len(ranges[0][1]) != 2 or not all(isinstance(a, Num) for a in ranges[0][1]):
+            ctx.report('C16.R5', where, 'sample count not derived from the arc length (%d samples)' % (len(el) // 2),
+                       'the list of samples is produced without a loop over range(1, n) with n computed from the arc length: '
+                       'short-radius or special-cased arcs are not subdivided')
+            continue
+        lo, hi = ranges[0][1]
+        if not (lo.is_const() and lo.p.const_value() == 1):
+            ctx.report('C16.R4', where, 'loop starts at %r' % (lo.p,), 'n segments need n-1 intermediate samples: range(1, n)')
+        if not density_ok(I, s, hi.p):
+            ctx.report('C16.R5', where, 'segment count %s' % repr(hi.p)[:80],
+                       'the segment count must be ceil(|sweep| * radius / K) with K <= 1 (clamped to at least 1), so that '
+                       'neighbouring samples are at most one unit apart')
+            continue
         angles = []
         bad = False
         for k in range(0, len(el) - 2, 2):
@@ -174,46 +239,6 @@ def plan_rules(ctx, I):
         if travel != want:
             ctx.report('C16.R4b', where, 'sweep for clockwise=%s, theta %s' % (cw, '<0' if neg else '>=0'),
                        'sweep is %r, expected %r (counter-clockwise sweeps lie in [0, 2pi), clockwise ones in [-2pi, 0))' % (travel, want))
-        # R5 density
-        info = I.syminfo.get(nsyms[0], {})
-        ctx.instance('C16.R5', nsyms[0][:50])
-        ok5 = False
-        inner = None
-        if info.get('fn') == 'max':
-            for a in info['args']:
-                ai = app_info(I, a.p, 'ceil')
-                if ai:
-                    inner = ai[0]
-        elif info.get('fn') == 'ceil':
-            inner = info['args'][0].p
-        elif info.get('fn') == 'int':
-            ai = app_info(I, info['args'][0].p, 'ceil')
-            inner = ai[0] if ai else None
-        if inner is not None:
-            for atr in (travel, -travel):
-                for form in (atr * Rs,):
-                    q = None
-                    # inner == c * |travel| * R with constant c >= 1
-                    if len(inner.t) and form.t:
-                        # compare term-wise ratio
-                        ratios = set()
-                        okr = set(inner.t) == set(form.t)
-                        if okr:
-                            for mm in form.t:
-                                ratios.add(inner.t[mm] / form.t[mm])
-                            if len(ratios) == 1 and next(iter(ratios)) >= 1:
-                                ok5 = True
-            absn = [nme for nme in inner.symbols() if I.syminfo.get(nme, {}).get('fn') == 'abs']
-            if absn and not ok5:
-                arg = I.syminfo[absn[0]]['args'][0].p
-                form = S(absn[0]) * Rs
-                if (arg == travel or arg == -travel) and set(inner.t) == set(form.t):
-                    r = set(inner.t[mm] / form.t[mm] for mm in form.t)
-                    ok5 = len(r) == 1 and next(iter(r)) >= 1
-        if not ok5:
-            ctx.report('C16.R5', where, 'segment count %s' % nsyms[0][:80],
-                       'the segment count must be ceil(|sweep| * radius / K) with K <= 1 (clamped to at least 1), so that '
-                       'neighbouring samples are at most one unit apart')
         ctx.sample({'rule': 'C16', 'samples': len(el) // 2, 'clockwise': cw, 'travel': repr(travel)[:80]})
     if n_ok == 0:
         raise AnalysisError('planArc: no path with intermediate samples could be analysed')
